@@ -584,7 +584,10 @@ class Gen:
         if r.random() < self.prof["p_errors"]:
             for code in r.sample(["400", "401", "403", "404", "409", "422", "429", "500", "502", "503",
                                   "402", "418", "420", "451", "499", "507", "529", "599"], r.randint(1, 3)):
-                responses[code] = {"description": f"error {code}"}
+                # in half of the documents all error responses are the same object (so that, moved into
+                # components.responses, ONE component is referenced under several status codes)
+                self._uniform_err = getattr(self, "_uniform_err", None) if getattr(self, "_uniform_err", None) is not None else (r.random() < 0.5)
+                responses[code] = {"description": "error" if self._uniform_err else f"error {code}"}
                 rexp[code] = {"error": True}
                 if r.random() < self.prof.get("p_error_stream", 0.0):
                     # a non-primary response with a streaming media type: the operation itself does not stream
